@@ -11,6 +11,7 @@
 import Rtp.Model.HeaderExt
 import Rtp.Spec.OrderedMap
 import Rtp.Pred.C01
+import Rtp.Pred.C02
 namespace Rtp.Pred.C05
 open Rtp Rtp.Model
 open Rtp.Spec.OrderedMap (Map Op)
@@ -21,7 +22,8 @@ end OM
 /-- how the start state is made -/
 inductive Start where
   | hdr (h : Header)        -- struct literal (fresh, or preset flag/profile/elements)
-  | wire (bs : Bytes)       -- `Header.Unmarshal(bs)` into a zero Header
+  | wire (prevs : List Bytes) (bs : Bytes)
+                            -- `Header.Unmarshal(bs)` into a Header that decoded `prevs` before (zero Header if none)
   deriving DecidableEq, Repr
 
 structure Reads where
@@ -56,7 +58,7 @@ structure Obs where
 
 def startHeader : Start → Option Header
   | .hdr h => some h
-  | .wire bs => match hdrUnmarshal {} bs with | .ok (h, _) => some h | _ => none
+  | .wire prevs bs => match hdrUnmarshal (C02.usedHeader prevs) bs with | .ok (h, _) => some h | _ => none
 
 def modelReads (h : Header) (extra : List UInt8) : Reads :=
   let ids := getExtensionIDs h
